@@ -104,6 +104,11 @@ func c18Run(c c18Case) []*core.Violation {
 		}
 		dec, _ := mimeread.DecodeWords(all[0])
 		want := strings.Join(h.Values, ", ")
+		if h.Preformat {
+			// a value the caller folded itself (CRLF + white space): written as it is, so it unfolds to
+			// the value without its line breaks
+			dec, want = all[0], strings.ReplaceAll(h.Values[0], "\r\n", "")
+		}
 		if trimWS(dec) != trimWS(want) {
 			vs = append(vs, core.V("unfold-mismatch", "%s unfolds/decodes to %q, %q was set", h.Name, clipS(dec), clipS(want)))
 		}
@@ -250,7 +255,7 @@ func c18Texts(s *gen.MsgSpec) []string {
 var c18Words = []string{"a", "of", "the", "word", "longer-word", "Grüße", "日本語", "x=y", "semi;colon", "(paren)", "<angle>", "q?mark", "under_score", "=?", "?=", "tab\tbed",
 	"line\nbreak", "carriage\rreturn", "crlf\r\nX-C18-Injected: 1", "nul\x00byte", "%s%d"}
 
-// c18Value draws a header value: words of length 0..300 separated by 1..3 blanks, optionally with
+// c18Value draws a header value: words of length 0..300 separated by 1..80 blanks, optionally with
 // leading/trailing blanks.
 func c18Value(t *rapid.T, label string) string {
 	n := rapid.IntRange(1, 25).Draw(t, label+"-n")
@@ -260,7 +265,7 @@ func c18Value(t *rapid.T, label string) string {
 	}
 	for i := 0; i < n; i++ {
 		if i > 0 {
-			sb.WriteString(strings.Repeat(" ", rapid.SampledFrom([]int{1, 1, 1, 1, 2, 3}).Draw(t, label+"-sp")))
+			sb.WriteString(strings.Repeat(" ", rapid.SampledFrom([]int{1, 1, 1, 1, 1, 1, 2, 3, 5, 8, 12, 20, 40, 80}).Draw(t, label+"-sp")))
 		}
 		switch rapid.IntRange(0, 5).Draw(t, label+"-wk") {
 		case 0:
@@ -292,6 +297,18 @@ func c18Gen(t *rapid.T) c18Case {
 			vals = append(vals, c18Value(t, "hv"))
 		}
 		spec.Headers = append(spec.Headers, gen.HeaderSpec{Name: fmt.Sprintf("X-Long-%d", i), Values: vals})
+	}
+	if rapid.IntRange(0, 3).Draw(t, "preformatted") == 0 {
+		// a header the caller has folded itself, the documented way (DKIM-Signature, List-Unsubscribe)
+		n := rapid.IntRange(1, 6).Draw(t, "prelines")
+		var sb strings.Builder
+		for i := 0; i < n; i++ {
+			if i > 0 {
+				sb.WriteString(rapid.SampledFrom([]string{"\r\n ", "\r\n\t", "\r\n  "}).Draw(t, "prefold"))
+			}
+			sb.WriteString(rapid.SampledFrom([]string{"v=1; a=rsa-sha256; c=relaxed/relaxed;", "d=verif.example; s=sel;", "h=from:to:subject:date:message-id;", "bh=47DEQpj8HBSa+/TImW+5JCeuQeRkm5NMpJWZG3hSuFU=;", "<mailto:unsubscribe@verif.example?subject=unsubscribe>,", "<https://verif.example/u/0123456789abcdef>", "word"}).Draw(t, "preline"))
+		}
+		spec.Headers = append(spec.Headers, gen.HeaderSpec{Name: "X-Pre-Folded", Values: []string{sb.String()}, Preformat: true})
 	}
 	addrList := func(label string, max int) []string {
 		n := rapid.IntRange(1, max).Draw(t, label+"-n")
@@ -349,7 +366,7 @@ func c18Gen(t *rapid.T) c18Case {
 
 func TestC18(t *testing.T) {
 	rec := core.Rec("C18")
-	rec.Rule = "rapid draws a message program with header values made of 1..25 words of 0..300 characters separated by 1..3 blanks (Subject, 0..2 generic headers with 1..3 values, To lists of 1..20 and Cc lists of 1..6 mailboxes with long display names/local parts, long multi-word file names, part and file descriptions), " +
+	rec.Rule = "rapid draws a message program with header values made of 1..25 words of 0..300 characters separated by 1..80 blanks (Subject, 0..2 generic headers with 1..3 values, one case in four a PREFORMATTED header that the caller folded itself with CRLF + blank/TAB, To lists of 1..20 and Cc lists of 1..6 mailboxes with long display names/local parts, long multi-word file names, part and file descriptions), " +
 		"QP/base64/8bit bodies and files with contents around the 57/76-byte wrapping points, and producers that chunk their writes (1-byte, primes, 3/57/76 +-1, random); a second chunk plan is drawn for the metamorphic comparison; header words occasionally contain LF, CR, CRLF + field, NUL; one case in five is preceded by the failed render of another message in the same process. " +
 		"Oracle on raw lines of WriteTo's output: CRLF only, no bare CR/LF in header sections and QP/base64 bodies; encoded body lines <= 76; header lines > 78 only if they have no folding opportunity; Subject/generic fields unfold and decode to exactly what was set (only leading/trailing blanks trimmed), address fields to the mailboxes set; leaves decode to the supplied content; every leaf is byte-identical under the two chunkings. " +
 		"Non-trivial: a value longer than 60 bytes, content longer than one encoded line, or a chunked producer. Distinct by (shape key, longest word decile, number of recipients, chunk plans)."
